@@ -21,7 +21,9 @@ import itertools
 import json
 import os
 import shutil
-import traceback
+import subprocess
+import sys
+import tempfile
 
 from .. import boot, canon, pool
 
@@ -102,12 +104,48 @@ def _render(snips):
     return text, defs
 
 
+ABSTRACT = set(POOL_T + POOL_U + POOL_L1)
+TOK_LEN = 4
+_CONS = 'bcdfghjklmnpqrstvwz'
+_tok_counter = [0]
+
+
+def _next_token():
+    n = _tok_counter[0]
+    _tok_counter[0] += 1
+    return _CONS[n // 361 % 19] + _CONS[n // 19 % 19] + _CONS[n % 19]
+
+
+def _concrete(name, tok):
+    """Identifiers are private to their tree: zeta -> y<tok>zeta, \u00e9la -> \u00e9<tok>la.  jedi
+    keeps process-wide state; what is asked about one tree must not meet state left behind by the
+    searches of another tree, and a replay of one tree in a fresh process must see the same."""
+    if name not in ABSTRACT:
+        return name
+    return (name[0] + tok + name[1:]) if ord(name[0]) > 127 else 'y' + tok + name
+
+
+def _concrete_component(c, tok):
+    for ext in ('.pyi', '.py', '-stubs', ''):
+        if ext and c.endswith(ext) and c[:-len(ext)] in ABSTRACT:
+            return _concrete(c[:-len(ext)], tok) + ext
+    return _concrete(c, tok)
+
+
 class Tree:
-    def __init__(self, tid, **kw):
-        self.spec = dict(id=tid, files={}, defs={}, **kw)
+    default_pool = POOL
+
+    def __init__(self, tid, idents=None, **kw):
+        self.tok = _next_token()
+        self.spec = dict(id=tid, files={}, defs={}, tok=self.tok,
+                         idents=[_concrete(x, self.tok) for x in (idents or Tree.default_pool)], **kw)
+
+    def _rel(self, rel):
+        return '/'.join(_concrete_component(c, self.tok) for c in rel.split('/'))
 
     def add(self, rel, snips, head='', encoding=None):
-        text, defs = _render(snips)
+        rel = self._rel(rel)
+        text, defs = _render([(k, _concrete(x, self.tok)) for k, x in snips])
         shift = head.count('\n')
         self.spec['files'][rel] = head + text
         self.spec['defs'][rel] = [dict(d, line=d['line'] + shift) for d in defs]
@@ -115,8 +153,15 @@ class Tree:
             self.spec.setdefault('enc', {})[rel] = encoding
         return self
 
-    def raw(self, rel, text):
+    def stub(self, rel, text):
+        rel = self._rel(rel)
         self.spec['files'][rel] = text
+        self.spec['defs'][rel] = []
+        return self
+
+    def raw(self, rel, text):
+        # .gitignore content: entries that name a pool identifier follow the renaming
+        self.spec['files'][self._rel(rel)] = '\n'.join(self._rel(l) for l in text.split('\n'))
         return self
 
     def skeleton(self, files, idents, rich=True, shift=0):
@@ -183,21 +228,25 @@ def _place_targets(t, base, targets, idents, shift=0):
 def _families(tier):
     quick = tier == 'quick'
     idents = POOL if quick else POOL_T
+    Tree.default_pool = idents
+    _tok_counter[0] = 0
     fams = []
 
+    def tree_a(prefix, name, li, loc, **kw):
+        t = Tree('%sA:%s@%s' % (prefix, name, loc or '.'), **kw)
+        t.skeleton(SKEL7, idents, shift=li)
+        t.hidden(_j(loc, name, 'hid.py'), idents, li)
+        t.hidden(_j(loc, name, 'lib', 'inner.py'), idents, li + 1)
+        t.add(_j(loc, name, idents[li % len(idents)] + '.py'), [('assign', 'hq')])
+        if name in IGN5:   # a *file* of that name is not a folder to ignore
+            t.add(_j(loc, name + '.py'), [('def', idents[li % len(idents)])])
+        return t.spec
+
     # A: built-in ignored directory names and near misses x placement
-    trees = []
-    for name in IGN5 + NEAR:
-        for li, loc in enumerate(['', 'pkg', 'pkg/sub', 'ns']):
-            t = Tree('A:%s@%s' % (name, loc or '.'), qset='full')
-            t.skeleton(SKEL7, idents, shift=li)
-            t.hidden(_j(loc, name, 'hid.py'), idents, li)
-            t.hidden(_j(loc, name, 'lib', 'inner.py'), idents, li + 1)
-            t.add(_j(loc, name, idents[li % len(idents)] + '.py'), [('assign', 'hq')])
-            if name in IGN5:   # a *file* of that name is not a folder to ignore
-                t.add(_j(loc, name + '.py'), [('def', idents[li % len(idents)])])
-            trees.append(t.spec)
-    fams.append(('A ignored-dir-name x place', trees))
+    places_a = [(name, li, loc) for name in IGN5 + NEAR
+                for li, loc in enumerate(['', 'pkg', 'pkg/sub', 'ns'])]
+    fams.append(('A ignored-dir-name x place',
+                 [tree_a('', name, li, loc, qset='full') for name, li, loc in places_a]))
 
     # G: one .gitignore: level x pattern kind, the named thing placed at every relative position
     trees = []
@@ -261,8 +310,7 @@ def _families(tier):
                 if w == 'gitignore-names-it':
                     t.raw('.gitignore', rel.split('/')[len(d.split('/')) if d else 0] + '\n')
                 if rel.endswith('.pyi'):
-                    t.spec['files'][rel] = 'hm: int\n'
-                    t.spec['defs'][rel] = []
+                    t.stub(rel, 'hm: int\n')
                 else:
                     t.add(rel, [('assign', 'hm')])
                 trees.append(t.spec)
@@ -373,15 +421,27 @@ def _families(tier):
         for n_noise in ([0, 35] if quick else [0, 35, 70]):
             for n_hidden in [0, 35]:
                 trees.append({'id': 'L:%d/%d/%d' % (n_match, n_noise, n_hidden), 'limits':
-                              [n_match, n_noise, n_hidden]})
+                              [n_match, n_noise, n_hidden], 'tok': _next_token()})
     fams.append(('L parse limit: matching x noise x ignored-matching files', trees))
 
-    # S: the default (environment) sys.path instead of an empty one, native listing order
+    # H: histories in another order: complete_search before search, and search again afterwards
     trees = []
-    for s in fams[0][1][::5 if quick else 1]:
-        s = dict(s, id='S' + s['id'], syspath='default', orders=['native'], qset='nonempty')
-        trees.append(s)
-    fams.append(('S default sys.path, native directory order', trees))
+    for g in GIT_LEVELS:
+        for kname in ('rel-dir', 'rel-file', 'multi'):
+            lines, targets = [(k[1], k[2]) for k in GIT_KINDS if k[0] == kname][0]
+            for qorder in ('reverse', 'triple'):
+                t = Tree('H:%s:%s@%s' % (qorder, kname, g or '.'), qset='full', qorder=qorder)
+                t.skeleton(SKEL5, idents)
+                t.raw(_j(g, '.gitignore'), '\n'.join(lines) + '\n')
+                for bname, base in _bases(g):
+                    _place_targets(t, base, targets, idents)
+                trees.append(t.spec)
+    fams.append(('H call order: complete_search then search; search, complete_search, search', trees))
+
+    # S: the default (environment) sys.path instead of an empty one, native listing order
+    fams.append(('S default sys.path, native directory order',
+                 [tree_a('S', name, li, loc, syspath='default', orders=['native'], qset='nonempty')
+                  for name, li, loc in places_a[::5 if quick else 1]]))
     return fams, idents
 
 
@@ -473,24 +533,30 @@ def _queries(spec, idents, vis):
     qset = spec.get('qset', 'full')
     qs = []
 
-    def add(path, typ=None, scopes=(False, True), modes=('search', 'complete_search'), req=None):
+    both = {'reverse': ('complete_search', 'search'),
+            'triple': ('search', 'complete_search', 'search')}.get(
+                spec.get('qorder'), ('search', 'complete_search'))
+
+    def add(path, typ=None, scopes=(False, True), modes=both, req=None):
         for a in scopes:
             for m in modes:
                 qs.append({'mode': m, 'all_scopes': a, 'type': typ, 'path': path, 'req': req})
 
+    # every string asked about a tree starts with the tree's token (or is empty)
+    T = TOK_LEN
     if qset == 'full':
-        strings = sorted({x[:k] for x in idents for k in range(0, len(x) + 1)})
+        strings = sorted({''} | {x[:k] for x in idents for k in range(T, len(x) + 1)})
     elif qset == 'nonempty':
-        strings = sorted({x[:k] for x in idents for k in (2, len(x))})
+        strings = sorted({x[:k] for x in idents for k in (T + 2, len(x))})
     else:
-        strings = sorted({x[:k] for x in idents for k in (0, 1, len(x))})
+        strings = sorted({''} | {x[:k] for x in idents for k in (T, T + 1, len(x))})
     for s in strings:
         add([s])
     for x in idents if qset == 'full' else idents[:1]:
         add([x], 'class')
         add([x], 'def')
     if qset != 'nonempty':
-        add([idents[0][:2]], 'def', modes=('complete_search',))
+        add([idents[0][:T + 2]], 'def', modes=('complete_search',))
     # dotted and typed-dotted forms derived from the inventory of visible files
     done = set()
     for d in vis:
@@ -653,7 +719,7 @@ def _project(jedi, env, root, spec):
     return project
 
 
-def _explore_tree(spec, idents):
+def _explore_tree(spec, idents, single=None):
     jedi = boot.boot()
     env = boot.environment()
     base = _fresh_dir('t')
@@ -668,6 +734,8 @@ def _explore_tree(spec, idents):
         for order in spec.get('orders', ['asc', 'desc']):
             out['states'] += 1
             for q in queries:
+                if single is not None and [order, _qstr(q), q['mode'], q['all_scopes']] != single:
+                    continue
                 out['q'] += 1
                 try:
                     with _dir_order(order):
@@ -686,7 +754,8 @@ def _explore_tree(spec, idents):
                 out['req'] += nexp
                 out['forb'] += nforb
                 out['classes'].add((spec['id'].split(':')[0], q['mode'], q['all_scopes'],
-                                    q['type'], min(len(q['path']), 3), min(len(q['path'][-1]), 2),
+                                    q['type'], min(len(q['path']), 3),
+                                    (len(q['path'][-1]) > 0) + (len(q['path'][-1]) > TOK_LEN),
                                     min(nexp, 3), min(nforb, 3), min(len(res), 3)))
                 for site, detail in fails:
                     out['fails'].append({'site': site, 'order': order, 'query': _qstr(q),
@@ -706,19 +775,20 @@ def _explore_limits(spec):
     root = os.path.join(base, 'r')
     out = {'fails': [], 'q': 0, 'states': 0, 'req': 0, 'forb': 0, 'classes': set(), 'hits': {}}
     try:
+        name = _concrete('zeta', spec['tok'])
         files = {}
         for i in range(n_match):
-            files['many/d%d/m%d.py' % (i % 3, i)] = 'def zeta(): pass\n'
+            files['many/d%d/m%d.py' % (i % 3, i)] = 'def %s(): pass\n' % name
         for i in range(n_noise):
             files['many/d%d/n%d.py' % (i % 3, i)] = 'hq%d = %d\n' % (i, i)
         for i in range(n_hidden):
-            files['venv/v%d.py' % i] = 'def zeta(): pass\n'
-            files['many/.tox/v%d.py' % i] = 'def zeta(): pass\n'
+            files['venv/v%d.py' % i] = 'def %s(): pass\n' % name
+            files['many/.tox/v%d.py' % i] = 'def %s(): pass\n' % name
         _write_tree(root, files)
         need = min(n_match, PARSE_LIMIT)
         for order in ['asc', 'desc', 'native']:
             out['states'] += 1
-            for mode, s in [('search', 'zeta'), ('complete_search', 'ze')]:
+            for mode, s in [('search', name), ('complete_search', name[:-2])]:
                 for a in (False, True):
                     out['q'] += 1
                     q = {'mode': mode, 'all_scopes': a, 'type': None, 'path': [s]}
@@ -732,7 +802,7 @@ def _explore_limits(spec):
                                              'mode': mode, 'all_scopes': a,
                                              'detail': {'traceback': canon.short_tb(e)}})
                         continue
-                    found = {r[2] for r in res if r[2] and r[0] == 'zeta' and r[1] == 'function'}
+                    found = {r[2] for r in res if r[2] and r[0] == name and r[1] == 'function'}
                     vis = {f for f in found if os.sep + 'many' + os.sep + 'd' in f}
                     hid = found - vis
                     out['req'] += need
@@ -758,10 +828,10 @@ def _explore_limits(spec):
 
 def _buffer_queries(idents):
     qs = []
-    strings = sorted({x[:k] for x in idents for k in range(0, len(x) + 1)})
+    strings = sorted({''} | {x[:k] for x in idents for k in range(TOK_LEN, len(x) + 1)})
     for s in strings:
         for typ in (None, 'class', 'def'):
-            if typ and len(s) not in (1, len(idents[0])):
+            if typ and len(s) not in (TOK_LEN + 1, len(idents[0])):
                 continue
             for a in (False, True):
                 for mode in ('search', 'complete_search'):
@@ -777,11 +847,11 @@ def _explore_buffers(task):
     out = {'fails': [], 'q': 0, 'states': 0, 'req': 0, 'forb': 0, 'classes': set(), 'hits': {}}
     project = jedi.Project(base, sys_path=[], smart_sys_path=False)
     try:
-        for k, text in enumerate(task['texts']):
+        for k, (text, idents) in enumerate(task['items']):
             out['states'] += 1
             script = jedi.Script(text, path=os.path.join(base, 'buf%d.py' % k), environment=env,
                                  project=project)
-            for q in _buffer_queries(task['idents']):
+            for q in _buffer_queries(idents):
                 s = _qstr(q)
                 out['q'] += 1
                 want = {'class': 'class', 'def': 'function', None: None}[q['type']]
@@ -817,99 +887,71 @@ def _explore_buffers(task):
 
 
 def _init():
-    """Worker start: load typeshed's builtins once (forked children inherit the parsed trees)
-    with a throw-away environment whose helper process is gone before any task is forked."""
-    jedi = boot.boot()
-    from jedi.api.environment import SameEnvironment
-    env = SameEnvironment()
-    base = _fresh_dir('w')
-    try:
-        _write_tree(os.path.join(base, 'r'), {'hwarm.py': 'class hwarm:\n    def hw(self): pass\n'})
-        project = jedi.Project(os.path.join(base, 'r'), sys_path=[])
-        project._environment = env
-        list(project.search('hwarm.hw'))
-        list(project.complete_search('hwar', all_scopes=True))
-    finally:
-        shutil.rmtree(base, ignore_errors=True)
-        try:
-            env._get_subprocess()._kill()
-        except Exception:
-            pass
+    boot.boot()
+    boot.environment()
 
 
-def _run_task(task):
-    if 'texts' in task:
+def _work(task):
+    """One task = one tree = one history of calls.  task['only'] (replays): the whole history
+    is re-executed and the recorded call reported; with task['single'] just that one call."""
+    only = task.get('only')
+    if 'items' in task:
         out = _explore_buffers(task)
     elif 'limits' in task['spec']:
         out = _explore_limits(task['spec'])
     else:
-        out = _explore_tree(task['spec'], task['idents'])
-    only = task.get('only')
+        out = _explore_tree(task['spec'], task['idents'], only if task.get('single') else None)
     if only is not None:
-        # a replay re-executes the whole history of its tree and reports the recorded query
         out['fails'] = [f for f in out['fails']
                         if [f['order'], f['query'], f['mode'], f['all_scopes']] == only]
     return out
 
 
-def _work(task):
-    """One tree = one process history.  jedi keeps process-wide state (caches keyed by name or
-    path); what a tree's queries see must not depend on the trees this worker handled before,
-    and must be what a replay in a fresh process sees.  Every task therefore runs in a forked
-    child of the warmed-up worker, with its own environment (helper process)."""
-    if task.get('only') is not None or os.environ.get('JV_C19_NOFORK'):
-        return _run_task(task)
-    r, w = os.pipe()
-    pid = os.fork()
-    if pid == 0:
-        code = 1
-        try:
-            os.close(r)
-            try:
-                data = json.dumps(_run_task(task))
-                code = 0
-            except BaseException:
-                data = json.dumps({'__error__': traceback.format_exc()})
-            try:
-                boot.environment()._get_subprocess()._kill()
-            except BaseException:
-                pass
-            with os.fdopen(w, 'w') as f:
-                f.write(data)
-        finally:
-            os._exit(code)
-    os.close(w)
-    with os.fdopen(r) as f:
-        data = f.read()
-    _, status = os.waitpid(pid, 0)
-    if not data:
-        return {'fails': [{'site': 'ChildDied(status=%d)' % status, 'order': '-', 'query': '-',
-                           'mode': '-', 'all_scopes': False, 'detail': {}}],
-                'q': 0, 'states': 0, 'req': 0, 'forb': 0, 'classes': [], 'hits': {}}
-    res = json.loads(data)
-    if '__error__' in res:
-        raise RuntimeError('task failed in its child process:\n' + res['__error__'])
-    return res
+def _single_call_holds(site, task):
+    """Does the recorded call, made alone in a fresh process, give a correct answer?"""
+    d = tempfile.mkdtemp(prefix='jv-c19s-', dir=os.environ.get('VERIF_SCRATCH', '/var/tmp'))
+    try:
+        path = os.path.join(d, 'single.json')
+        with open(path, 'w') as f:
+            json.dump({'site': site, 'case': {'task': dict(task, single=True, classify=False)}}, f)
+        env = dict(os.environ)
+        env.pop('JV_SCRATCH', None)
+        p = subprocess.run([sys.executable, '-B', '-m', 'jv.runner', ID, '--replay', path, '--quiet'],
+                           env=env, capture_output=True, text=True, timeout=900)
+        return p.returncode == 0
+    finally:
+        shutil.rmtree(d, ignore_errors=True)
+
+
+def _history_of(task):
+    """The calls of the task's tree in order, up to the recorded one (for the reader)."""
+    spec = task['spec']
+    vis = _inventory(spec)[0]
+    calls = []
+    for order in spec.get('orders', ['asc', 'desc']):
+        for q in _queries(spec, task['idents'], vis):
+            key = [order, _qstr(q), q['mode'], q['all_scopes']]
+            calls.append('%s(%r, all_scopes=%s) [listing %s]' % (q['mode'], _qstr(q), q['all_scopes'], order))
+            if key == task['only']:
+                return calls
+    return calls
 
 
 def run(ctx):
     fams, idents = _families(ctx.tier)
+    # buffers: one instance of every distinct generated text (distinct up to the tree's token)
     texts = {}
     for name, specs in fams:
         for s in specs:
             for rel, text in s.get('files', {}).items():
                 if rel.endswith('.py'):
-                    key = (tuple(s.get('idents', idents)), hashlib.sha1(text.encode()).hexdigest())
-                    texts.setdefault(key, text)
+                    norm = text.replace(s['tok'], '###')
+                    texts.setdefault(hashlib.sha1(norm.encode()).hexdigest(), [text, s['idents']])
     chunk = 8
-    levels = [(name, [{'spec': s, 'idents': s.get('idents', idents)} for s in specs])
-              for name, specs in fams]
-    btasks = []
-    for ids in sorted({k[0] for k in texts}):
-        tlist = [texts[k] for k in sorted(texts) if k[0] == ids]
-        btasks += [{'texts': tlist[i:i + chunk], 'idents': list(ids), 'first': len(btasks) * chunk}
-                   for i in range(0, len(tlist), chunk)]
-    levels.append(('B Script.search == filter(get_names) on every distinct generated text', btasks))
+    levels = [(name, [{'spec': s, 'idents': s.get('idents')} for s in specs]) for name, specs in fams]
+    items = [texts[k] for k in sorted(texts)]
+    levels.append(('B Script.search == filter(get_names) on every distinct generated text',
+                   [{'items': items[i:i + chunk], 'first': i} for i in range(0, len(items), chunk)]))
     dev = os.environ.get('JV_C19_FAMS')          # development aid only: run a subset of families
     if dev:
         levels = [lv for lv in levels if lv[0].split()[0] in dev.split(',')]
@@ -954,17 +996,17 @@ def run(ctx):
         hits['trees:' + fam] = hits.get('trees:' + fam, 0) + 1
         for f in r['fails']:
             only = [f['order'], f['query'], f['mode'], f['all_scopes']]
-            if 'texts' in t:
+            if 'items' in t:
                 # a buffer is identified by its text, not by its position in the chunk
-                text = t['texts'][f['order']]
+                text, ids = t['items'][f['order']]
                 iid = 'B:%s|%s|%s|%s' % (hashlib.sha1(text.encode()).hexdigest()[:12],
                                          f['mode'], f['query'], f['all_scopes'])
-                case = {'task': {'texts': [text], 'idents': t['idents'], 'first': 0,
-                                 'only': [0] + only[1:]}}
+                case = {'task': {'items': [[text, ids]], 'first': 0, 'only': [0] + only[1:]}}
             else:
                 iid = '%s|%s|%s|%s|%s' % (tid, f['order'], f['mode'], f['query'], f['all_scopes'])
                 case = {'task': dict(t, only=only)}
             ctx.violation(f['site'], iid, f['detail'], case)
+    _classify(ctx)
     for name, ts in levels:
         n, nskip = per_level.get(name, [0, 0])
         if nskip:
@@ -1003,7 +1045,50 @@ def run(ctx):
     ]
 
 
+DEPENDS = 'answer-depends-on-earlier-searches@'
+
+
+def _classify(ctx, per_site=2):
+    """Every answer was checked at the end of its tree's history of calls.  For the first
+    failures of every site the recorded call is repeated alone in a fresh process: if it is
+    answered correctly there, the failure is one of history and is reported as such."""
+    seen = {}
+    todo = []
+    for v in ctx.violations:
+        task = v['case'].get('task', {})
+        if 'spec' not in task or 'files' not in task['spec'] or task.get('only') is None:
+            continue
+        inputs = seen.setdefault(v['site'], [])
+        if v['input'] not in inputs and len(inputs) < per_site:
+            inputs.append(v['input'])
+            todo.append(v)
+    if not todo:
+        return
+    from concurrent.futures import ThreadPoolExecutor
+    with ThreadPoolExecutor(max_workers=min(4, pool.NPROC)) as ex:
+        holds = list(ex.map(lambda v: _single_call_holds(v['site'], v['case']['task']), todo))
+    moved = {(v['site'], v['input']) for v, ok in zip(todo, holds) if ok}
+    for v in ctx.violations:
+        if (v['site'], v['input']) in moved:
+            task = dict(v['case']['task'], classify=True)
+            v['detail'] = dict(v['detail'], alone_in_a_fresh_process='correct', was=v['site'],
+                               history=_history_of(task))
+            v['site'] = DEPENDS + v['site'].split('@')[-1]
+            v['input'] += '|after-its-tree-history'
+            v['case'] = {'task': task}
+    for site, inp in sorted(moved):
+        ctx.note('answered correctly alone in a fresh process, wrongly after the earlier calls of '
+                 'its tree: %s' % inp)
+
+
 def replay(case):
     _init()
-    r = _work(case['task'])
-    return [(f['site'], case['task'].get('spec', {}).get('id', 'B'), f['detail']) for f in r['fails']]
+    task = case['task']
+    r = _work(task)
+    tid = task.get('spec', {}).get('id', 'B')
+    out = [(f['site'], tid, f['detail']) for f in r['fails']]
+    if task.get('classify') and out:
+        # recorded as a failure of history: it must fail here, after the history, and hold alone
+        if _single_call_holds(out[0][0], task):
+            out = [(DEPENDS + site.split('@')[-1], tid, detail) for site, tid, detail in out]
+    return out
